@@ -436,6 +436,7 @@ def run(ctx):
         r = ctx.tlc('MC_YannyFile.tla', 'MC_YannyFile_%s.cfg' % dev, must_hold=False, count=False, label='negative control ' + dev)
         if not r['violated']:
             raise core.MachineryError('negative control %s was not refuted by TLC' % dev)
+    apalache_any_length(ctx)
     # quick: all histories of <= 3 calls with the small append menu; thorough: <= 4 calls with the small menu
     # and <= 3 calls with the rich menu (the history variable makes every path a distinct state)
     cfgs = ['MC_YannyFile_quick.cfg'] if ctx.quick else ['MC_YannyFile_thorough.cfg', 'MC_YannyFile_thorough_rich.cfg']
@@ -578,6 +579,22 @@ def do_replay(ctx, st, root, rng, inits, by_tset):
             'spec_state': {'fs': spec_fs(st['fs']), 'obj': spec_obj(st['obj']), 'last': dict(st['last']),
                            'cells': spec_cells(st['cells']), 'fresh': dict(spec_fresh(st['fresh']), readable=bool(st['fresh']['readable']))}})
     return 1
+
+
+def apalache_any_length(ctx):
+    """Unbounded part: Apalache discharges the inductive invariant of apalache/YannyFileInd.tla (the write/append protocol of
+    spec/YannyFile.tla for histories of ANY length; states with at most four elements per sequence) and refutes two negative controls."""
+    from .. import apalache
+    runs = [('Init => IndInv', ['--init=Init', '--next=Next', '--inv=IndInv', '--length=0'], True),
+            ("IndInv /\\ Next => IndInv'", ['--init=IndInit', '--next=Next', '--inv=IndInv', '--length=1'], True),
+            ('IndInv /\\ Next => PrefixPreserved, NoClobber, NoCreateOnAppend, RefusalsChangeNothing',
+             ['--init=IndInit', '--next=Next', '--inv=ActionProps', '--length=1'], True),
+            ('negative control: append to the object only breaks IndInv', ['--init=IndInit', '--next=NextDev', '--inv=IndInv', '--length=1'], False),
+            ('negative control: a write that truncates breaks NoClobber', ['--init=IndInit', '--next=NextClobber', '--inv=ActionProps', '--length=1'], False)]
+    apalache.discharge(ctx, 'YannyFileInd', runs, 'apalache_inductive',
+                       'histories of any length; every state whose sequences hold at most 4 elements (Gen(4)) and that satisfies IndInv')
+    ctx.assumptions.append('unbounded part: apalache/YannyFileInd.tla (same actions and invariants as spec/YannyFile.tla, two tables of integer row ids); Apalache '
+                           'discharges Init => IndInv, IndInv /\\ Next => IndInv\' and the four action properties from every IndInv state, and refutes two negative controls')
 
 
 def core_plain(x):
